@@ -3,6 +3,8 @@ import PqlModel.Props.C15Parse
 import PqlModel.Props.C16Semantics
 import PqlModel.Props.C15SplitIR
 import PqlModel.Props.C07OperatorIRParse
+import PqlModel.Props.IRHeadlinesD
+import PqlModel.Props.C09ScanIR
 #print axioms Pql.C15.C15_count
 #print axioms Pql.C15.C15_join
 #print axioms Pql.C15.C15_scan_local
@@ -30,3 +32,9 @@ import PqlModel.Props.C07OperatorIRParse
 #print axioms Pql.OpIR.C07_firstParse_stmt
 #print axioms Pql.OpIR.C07_Parse_tokens_ir
 #print axioms Pql.OpIR.C07_Parse_ir
+#print axioms Pql.IRHead.C15_split_headlines_ir
+#print axioms Pql.IRHead.C15_parse_pieces_ir
+#print axioms Pql.IRHead.C15_on_translated_code
+#print axioms Pql.ScanIR.C15_split_scan_ir
+#print axioms Pql.ScanIR.C09_Scan_ir
+#print axioms Pql.ScanIR.Scan_ir
